@@ -208,6 +208,16 @@ def ref_binop(op, lref, rref):
     return f
 
 
+def wrapping_add(i, fr, st, pc, a, t, fn, r):
+    from .absint import w_add
+    return _ret(i, st, pc, w_add(a[0], a[1])[0])
+
+
+def wrapping_sub(i, fr, st, pc, a, t, fn, r):
+    from .absint import w_sub
+    return _ret(i, st, pc, w_sub(a[0], a[1])[0])
+
+
 def cmp_min(i, fr, st, pc, a, t, fn, r):
     x, y = a
     if x.val is None or y.val is None:
@@ -354,6 +364,11 @@ def is_lt(i, fr, st, pc, a, t, fn, r):
     if isinstance(v, Agg):
         return _ret(i, st, pc, wbool(v.variant == 0))
     if isinstance(v, Opaque) and v.kind == "lexcmp":
+        pol = getattr(i, "cmp_policy", None)
+        if pol is not None:
+            k = len(i.cmp_log)
+            i.cmp_log.append(v.data)
+            return _ret(i, st, pc, wbool(pol(k)))
         return _ret(i, st, pc, wtop(1))
     raise Undecided("is_lt on %r" % (v,))
 
@@ -533,6 +548,11 @@ TABLE = {
     "<u64 as std::ops::BitXorAssign<&u64>>::bitxor_assign": op_assign("BitXor"),
     "<u32 as std::ops::Shl<&usize>>::shl": ref_binop("Shl", False, True),
     "<u32 as std::ops::Shr<&usize>>::shr": ref_binop("Shr", False, True),
+    "core::num::<impl u64>::wrapping_add": wrapping_add,
+    "core::num::<impl usize>::wrapping_add": wrapping_add,
+    "core::num::<impl u32>::wrapping_add": wrapping_add,
+    "core::num::<impl u64>::wrapping_sub": wrapping_sub,
+    "core::num::<impl usize>::wrapping_sub": wrapping_sub,
     "std::cmp::min": cmp_min,
     "std::cmp::max": cmp_max,
     "core::num::<impl usize>::count_ones": count_ones,
